@@ -319,11 +319,40 @@ func checkCached(f *rm.Forest, hashes []Hash, proof u.Proof, want map[Hash]bool)
 // wanted targets in a shuffled order (and sometimes one leaf dropped) before the next
 // Update/Undo: a cached proof need not list its targets in ascending order (added after seeded
 // change C08g).  Deterministic in (tag, op index, sub index).
-func lcReorder(c *core.Ctx, tag uint64, oi, sub int, numLeaves uint64, hashes []Hash, proof *u.Proof, want map[Hash]bool, when string) ([]Hash, bool) {
+func lcReorder(c *core.Ctx, tag uint64, oi, sub int, m *rm.Model, numLeaves uint64, hashes []Hash, proof *u.Proof, want map[Hash]bool, when string) ([]Hash, bool) {
+	rng := rand.New(rand.NewSource(int64(tag*1000003 + uint64(oi)*131 + uint64(sub))))
+	// The client may also start watching leaves that exist already: it gets their proof from a
+	// full prover (here: the reference model's canonical proof) and combines it with what it
+	// holds through the public AddProof; the combined proof is what the next Update/Undo sees.
+	if m != nil && (tag+uint64(oi)*7+uint64(sub))%4 == 1 {
+		held := map[Hash]bool{}
+		for _, h := range hashes {
+			held[h] = true
+		}
+		var extra []Hash
+		live := m.Live()
+		rng.Shuffle(len(live), func(i, j int) { live[i], live[j] = live[j], live[i] })
+		for _, sl := range live {
+			if h := m.Leaves[sl]; !held[h] && len(extra) < 1+int(tag%2) {
+				extra = append(extra, h)
+			}
+		}
+		if len(extra) > 0 {
+			pb, ok := m.Forest().ProofForHashes(extra)
+			if ok {
+				nh, np := u.AddProof(cloneProof(*proof), pb, cloneHashes(hashes), cloneHashes(extra), numLeaves)
+				for _, h := range extra {
+					want[h] = true
+				}
+				*proof = np
+				hashes = nh
+				c.Count("leaves_added_to_the_cached_proof_through_AddProof_before_"+when, len(extra))
+			}
+		}
+	}
 	if len(hashes) < 2 || (tag+uint64(oi)*5+uint64(sub))%3 != 0 {
 		return hashes, true
 	}
-	rng := rand.New(rand.NewSource(int64(tag*1000003 + uint64(oi)*131 + uint64(sub))))
 	idx := rng.Perm(len(hashes))
 	dropped := -1
 	if len(hashes) >= 3 && rng.Intn(2) == 0 {
@@ -386,7 +415,7 @@ func lcCheck(c *core.Ctx, s lcScenario, judgeUndo bool) {
 			t := traits(rec)
 			var err error
 			var okR bool
-			if hashes, okR = lcReorder(c, s.Tag, oi, 0, prevStump.NumLeaves, hashes, &proof, want, "update"); !okR {
+			if hashes, okR = lcReorder(c, s.Tag, oi, 0, rec.Before, prevStump.NumLeaves, hashes, &proof, want, "update"); !okR {
 				return
 			}
 			heldBefore := len(hashes)
@@ -458,7 +487,7 @@ func lcCheck(c *core.Ctx, s lcScenario, judgeUndo bool) {
 			snaps = snaps[:len(snaps)-1]
 			rec := sn.rec
 			var okR bool
-			if hashes, okR = lcReorder(c, s.Tag, oi, i+1, w.Stump.NumLeaves, hashes, &proof, want, "undo"); !okR {
+			if hashes, okR = lcReorder(c, s.Tag, oi, i+1, w.M, w.Stump.NumLeaves, hashes, &proof, want, "undo"); !okR {
 				return
 			}
 			heldBefore := cloneHashes(hashes)
